@@ -729,8 +729,18 @@ def r05_8(ctx, prog, crate):
             ctx.check(fed, "R05.8", [b.path, "count-feeds-the-counter"], "the count does not feed the counter's constructor", cnt[0].line())
 
 
+def r05_9(ctx, prog, crate):
+    """Per-sample counter values stay aligned with the samples: installing an input counter empties its own kind's list
+    unconditionally (a left-over constant count would shift every per-sample value by one) and touches no other kind;
+    a constant counter replaces only its own kind (the rule is C15's R15.6, reported here under this property)."""
+    from rules import C15
+    from rules.common import Renamed
+    C15.r15_6(Renamed(ctx, "R05.9"), prog, crate)
+
+
 def run(ctx, prog, crate):
     r05_8(ctx, prog, crate)
+    r05_9(ctx, prog, crate)
     r05_7(ctx, prog, crate)
     r05_6(ctx, prog, crate)
     r05_5(ctx, prog, crate)
